@@ -501,8 +501,14 @@ class _Eval:
                 return val
             return self.read_place(p, env, mem)
         if r == "cast":
-            a = self.operand(rv["a"], env, mem)
             kind = rv["k"]
+            if (kind.startswith("PointerCoercion") or kind == "PtrToPtr") and rv["a"][0] in ("c", "m") and not rv["a"][1][1]:
+                raw0 = env.get(rv["a"][1][0])
+                if raw0 is not None and raw0[0] == "MR":
+                    # `&mut local` coerced to a slice / trait object / raw pointer is still a mutable borrow of that local:
+                    # keep the borrow, so that a callee without a summary (or a reference it returns) invalidates the local
+                    return raw0
+            a = self.operand(rv["a"], env, mem)
             if kind.startswith("PointerCoercion") or kind in ("PtrToPtr", "Transmute") and short(rv["from"]) == short(rv["ty"]):
                 if "Unsize" in kind:
                     return ("CAST", "Unsize", a, short(rv["from"]), short(rv["ty"]))
